@@ -17,6 +17,7 @@ rng (all members are visited over the seeds), the thorough tier takes all of it.
   fam_single_pass   (round 4) an iteration with exactly one element that does not start at 0: its index still shifts the base
   fam_rep_plain     (round 4) a repetition whose first hold repeats the plain level left right before it and whose body ends on
                     another plain level: only the plain-voltage part of the entry snapshot forces the unrolled first pass
+  fam_direct        (round 4) the builder interface called directly: with_repetition(0), operator orders of SimpleExpression
   fam_names         name coincidences: a swap mapping {i: j, j: i} around a hold, an index called like a channel, the identity
                     mapping of an index (m_i := i hands the shared scope object through under another name)
 """
@@ -358,6 +359,44 @@ def fam_rep_plain(thorough):
     return out
 
 
+def _direct(case, dstyle=0):
+    def f(h):
+        h2 = {'t': 'hold', 'dur': h['dur'], 'v': {}}
+        for ch, v in h['v'].items():
+            h2['v'][ch] = dict(v, dstyle=dstyle) if v['k'] == 'aff' else v
+        return h2
+    return dict(case, tree=_map_holds(case['tree'], f), direct=True, fam='direct')
+
+
+def fam_direct(thorough):
+    """round 4 (coverage audit): the program is built by calling the ProgramBuilder interface directly instead of through pulse
+    templates (two code paths that must stay in sync).  Reaches what the templates never do: `with_repetition(0)` (RepetitionPT
+    does not call the builder for a count of 0), voltages written as python arithmetic on the index expressions (number + c*i,
+    number - i*(-c), i/(1/c) + number: __radd__/__rsub__/__neg__/__truediv__ of SimpleExpression).  Reference = default program of
+    the corresponding template."""
+    out = []
+    h = H(1, a=('1/4', {'i': '1/2'}), b='1/2')
+    h2 = H(2, a=('0', {'i': '-1/4'}), b=('1', {'i': '1'}))
+    p1, p2 = H(1, a='1/2', b='-1'), H(1, a='3/2', b='-1')
+    zero = [REP(0, p1), SEQ(p1, REP(0, p2), p2), SEQ(REP(0, p1), p2), REP(2, SEQ(p1, REP(0, p2))), REP(0, REP(2, p1)), REP(3, REP(0, p1)),
+            IT('i', (0, 3, 1), SEQ(h, REP(0, h2), h2)), IT('i', (0, 3, 1), REP(0, h)), IT('i', (1, 4, 2), SEQ(REP(0, h), h)),
+            SEQ(p1, IT('i', (0, 2, 1), REP(0, h)), p1), REP(2, IT('i', (0, 2, 1), SEQ(REP(0, h2), h)))]
+    for t in zero:
+        for chans in (['a', 'b'], ['b', 'a']):
+            out.append(_direct(_run(t, chans, 'direct')))
+            out.append(_run(t, chans, 'direct'))                      # the same through the templates
+    nest = IT('j', (2, -1, -1), IT('i', (0, 3, 1), SEQ(H(1, a=('1/4', {'i': '1/2', 'j': '-1/4'}), b=('0', {'j': '2'})),
+                                                       REP(2, H(1, a=('0', {'i': '1/8'}), b='1/2')))))
+    for ds in (0, 1, 2, 3):
+        out.append(_direct(_run(nest, ['a', 'b'], 'direct'), ds))
+        out.append(_direct(_run(IT('i', (3, 4, 1), SEQ(h, h2)), ['b', 'a'], 'direct'), ds))
+        out.append(_direct(_run(SEQ(IT('i', (0, 3, 1), h), REP(2, IT('i', (0, 2, 1), h2))), ['a', 'b'], 'direct'), ds))
+    # members of the round-4 families driven directly (no mapping / dict-order variants in those)
+    for k, c in enumerate(fam_single_pass(thorough)[::6] + fam_rep_plain(thorough)[::6]):
+        out.append(_direct(c, k % 4))
+    return out
+
+
 def _first_idx(h):
     for v in h['v'].values():
         if v['k'] == 'aff':
@@ -368,9 +407,9 @@ def _first_idx(h):
 def families(rng, tier):
     thorough = tier != 'quick'
     out = []
-    strides = {'rep_entry': 8, 'equal_slope': 5, 'alias': 3, 'names': 2, 'scale': 3, 'single_pass': 4, 'rep_plain': 4}
+    strides = {'rep_entry': 8, 'equal_slope': 5, 'alias': 3, 'names': 2, 'scale': 3, 'single_pass': 4, 'rep_plain': 4, 'direct': 2}
     for name, f in (('rep_entry', fam_rep_entry), ('equal_slope', fam_equal_slope), ('alias', fam_alias), ('names', fam_names),
-                    ('scale', fam_scale), ('single_pass', fam_single_pass), ('rep_plain', fam_rep_plain)):
+                    ('scale', fam_scale), ('single_pass', fam_single_pass), ('rep_plain', fam_rep_plain), ('direct', fam_direct)):
         cases = f(thorough)
         if not thorough:
             k = strides[name]
